@@ -62,6 +62,10 @@ chk("C15","exploration","round-trip runtime monitor: generated SDL served by a s
  "Held on the schemas explored (all type-system features listed in the rule): the reconstructed schema's fact set equals S's, operations are valid on both or on neither, no panic; schemas with references nested deeper than 7 wrappers are a listed known finding (rejected at start-up).",
  "Trusted: the harness's introspection responder (reference engine; self-checked by rebuilding its own answers) and fact extraction.","DESIGN.md §5 C15")
 
+chk("C16","exploration","differential runtime monitor: gateway introspection answers vs the reference engine's spec-shaped introspection over the captured merged schema; rebuild through pebbles' own introspector; probes",
+ "Held on the introspection operations explored (generated selections with aliases/fragments/variables/includeDeprecated, the standard queries, rebuild by 'another gateway', accept/reject probes): answers equal the reference (lists as multisets), the rebuilt schema's fact set equals the merged schema's.",
+ "Trusted: reference engine's introspection; list order treated as insignificant.","DESIGN.md §5 C16")
+
 claimed=set(C)
 na=[{"property_id":p['id'],"reason":"check under construction in this round; not claimed yet"} for p in props if p['id'] not in claimed]
 m={"version":1,"setup_cmd":"./run.sh build && ./run.sh selftest",
